@@ -380,7 +380,7 @@ fn main() {
             }
         }
     }
-    let nr = ctx.budget(1500, 30000);
+    let nr = ctx.cbudget(1500, 30000);
     for _ in 0..nr {
         if let Some(mut rng) = ctx.random_case() {
             let len = rng.range_usize(0, 60);
